@@ -3,6 +3,7 @@ pub mod c02;
 pub mod c09;
 pub mod c10;
 pub mod c19;
+pub mod c20;
 
 use crate::ctx::Ctx;
 
@@ -13,6 +14,7 @@ pub fn run(check: &str, ctx: &mut Ctx, _args: &[String]) -> bool {
         "c09" => c09::run(ctx),
         "c10" => c10::run(ctx),
         "c19" => c19::run(ctx),
+        "c20" => c20::run(ctx, _args),
         _ => return false,
     }
     true
@@ -26,6 +28,7 @@ pub fn replay(check: &str, j: &serde_json::Value) -> bool {
         "c09" => c09::replay(j),
         "c10" => c10::replay(j),
         "c19" => c19::replay(j),
+        "c20" => c20::replay(j),
         _ => {
             eprintln!("no replay for {check}");
             false
